@@ -436,16 +436,20 @@ func (t *ValueSet) result(r Result) Result {
 	// any pointers. We know this to be true already since we analyzed the
 	// function earlier.
 	if !t.lifted() {
+		// Note we must not modify r.out in place: the slice may be shared
+		// with a memoized result (FuncOnce) that is adapted again later.
+		structOut := r.out[0]
 		for i := uint8(0); i < t.structPointers; i++ {
-			r.out[0] = r.out[0].Elem()
+			structOut = structOut.Elem()
 		}
 
 		// A nil result is equivalent to zero values, allocate the struct.
 		// This happens if there are pointer results and the user returns nil.
-		if !r.out[0].IsValid() {
-			r.out[0] = reflect.New(t.structType).Elem()
+		if !structOut.IsValid() {
+			structOut = reflect.New(t.structType).Elem()
 		}
 
+		r.out = []reflect.Value{structOut}
 		return r
 	}
 
